@@ -39,6 +39,7 @@ type HarnessResult struct {
 	WallS         float64           `json:"wall_s"`
 	Truncated     bool              `json:"path_limit_hit,omitempty"`
 	Retried       bool              `json:"retried_with_tripled_solver_limits,omitempty"`
+	Crossed       int               `json:"queries_answered_identically_by_two_or_more_solvers,omitempty"`
 	sampling       int // (unused) samples being computed
 	skippedSamples int // completed paths not eligible for native validation
 	Compose       *composeResult    `json:"scheduler_composition,omitempty"`
@@ -77,6 +78,7 @@ func main() {
 		solverK  = flag.String("solver", "z3new,cvc5", "solver portfolio (comma list of z3new|z3old|cvc5)")
 		list     = flag.Bool("list", false, "list harnesses")
 		nvalid   = flag.Int("validate", -1, "number of completed paths per harness to validate natively")
+		cross    = flag.Bool("cross", false, "cross-check mode: every query is sent to every solver of the portfolio and the answers are compared")
 		replayF  = flag.String("replay", "", "replay one counterexample/sample file natively against the real build and print the outcome")
 	)
 	flag.Parse()
@@ -84,7 +86,7 @@ func main() {
 		*tier = env
 	}
 	t0 := time.Now()
-	w := &World{tier: *tier, debug: *debug, repo: *repo, verifDir: *verif, regexCache: map[string]*Term{}}
+	w := &World{tier: *tier, debug: *debug, repo: *repo, verifDir: *verif, regexCache: map[string]*Term{}, crossB: *cross}
 	w.registerIntrinsics()
 	w.loadKnown()
 	props := map[string]bool{}
@@ -226,6 +228,7 @@ func (w *World) runHarness(h *Harness, workers int, solverKind string, nvalid in
 					res.Sat += solver.Sat
 					res.Unsat += solver.Unsat
 					res.Unknown += solver.Unknown
+					res.Crossed += solver.Crossed
 					if d := int(solver.Disagree); d > 0 {
 						res.Inconcl = append(res.Inconcl, fmt.Sprintf("solver disagreement on %d queries", d))
 					}
@@ -273,6 +276,7 @@ func (w *World) runHarness(h *Harness, workers int, solverKind string, nvalid in
 						fmt.Fprintln(os.Stderr, "cannot start solver:", err)
 						os.Exit(2)
 					}
+					solver.CrossAll = w.crossB
 				}
 				e := &Exec{w: w, h: h, solver: solver, bvMode: h.BV, prefix: prefix,
 					globals: map[*ssa_Global]*Object{}, hidden: map[string]interface{}{}}
